@@ -2,3 +2,12 @@ import os
 ROOT = os.path.dirname(os.path.dirname(os.path.abspath(__file__)))
 NVH = os.path.join(ROOT, "harness", "target", "debug", "nvh")
 DRIVER = os.path.join(ROOT, "lean", ".lake", "build", "bin", "driver")
+
+
+def oracle_key(msg):
+    """stable key of an oracle failure `Cxx: [slug] text` (slug when present, else the first 60 characters)"""
+    t, _, rest = msg.partition(":")
+    rest = rest.strip()
+    if rest.startswith("[") and "]" in rest:
+        return f"oracle:{t}:{rest[1:rest.index(']')]}"
+    return f"oracle:{t}:{rest[:60].replace(' ', '_')}"
